@@ -3,6 +3,7 @@ observed arrival/departure history by the statement's recurrences, in exact rati
 from fractions import Fraction as Fr
 
 from harness import sched as S
+from mc import explore
 
 PROPERTY = "C14"
 CLAUSES = ["C14.noraise", "C14.once", "C14.time", "C14.fifo", "C14.min", "C14.ties", "C14.fair"]
@@ -54,9 +55,11 @@ def plan(tier, seed):
                 continue
             cfgs.append(dict(sched=kind, table=[[c, 1] for c in range(ncls)], rate=8, flows=list(range(ncls)), sizes=[1],
                              N=ncls if ncls < 6 or not quick else 5, gaps=["S"], order=0, static=True))
+    # every configuration once more with long fixed workloads (state that only breaks after hundreds of packets)
+    nlong = explore.add_long(cfgs, 300 if quick else 800)
     return {"cfgs": cfgs, "budget": None,
-            "bound": "N<=%d full menu, N<=%d reduced, static backlogs N<=%d with 3 sizes; weights (1,1),(1,2),(2,1),(1,3),(2,4); "
-                     "vticks (1,1),(1,2),(2,1),(.5,2); equal-stamp bursts over 4-6 classes" % (n, n + 1, n + 2)}
+            "bound": ("%d long fixed workloads (periodic arrival patterns); " % nlong) + ("N<=%d full menu, N<=%d reduced, static backlogs N<=%d with 3 sizes; weights (1,1),(1,2),(2,1),(1,3),(2,4); "
+                     "vticks (1,1),(1,2),(2,1),(.5,2); equal-stamp bursts over 4-6 classes" % (n, n + 1, n + 2))}
 
 
 def dyadic(x):
